@@ -24,6 +24,9 @@ pub fn run<S: InterpreterTrait>(interpreter: &mut S) -> Result<(), RuntimeError>
 
 fn do_instr(start: usize, hay: &str, needle: &str) -> Result<i32, RuntimeError> {
     debug_assert!(start >= 1);
+    // positions are counted in characters
+    let hay: Vec<char> = hay.chars().collect();
+    let needle: Vec<char> = needle.chars().collect();
     if hay.is_empty() {
         Ok(0)
     } else if needle.is_empty() {
@@ -31,8 +34,7 @@ fn do_instr(start: usize, hay: &str, needle: &str) -> Result<i32, RuntimeError> 
     } else {
         let mut i: usize = start - 1;
         while i + needle.len() <= hay.len() {
-            let sub = hay.get(i..(i + needle.len())).unwrap();
-            if sub == needle {
+            if hay[i..(i + needle.len())] == needle[..] {
                 return Ok((i as i32) + 1);
             }
             i += 1;
